@@ -70,7 +70,7 @@ var gomaxprocsValues = []int{1, 2, 4, 16}
 var Check = &run.Check{
 	ID:    "C16",
 	Level: "exploration",
-	Rule: "case = generated tree (0-8 immediate sub-directories of kinds plain / dotted name / look-alikes of the ignored names (jgit, xsvn, ahg, aidea, git, .github, .gitx, my_coca_reporter ...) / " +
+	Rule: "case = generated tree (0-8 immediate sub-directories of kinds plain / dotted name / look-alikes of the ignored names (jgit, xsvn, ahg, aidea, git, .github, .gitx, my_coca_reporter ...) / deep-only modules (all files 2-4 levels down, backend/src/main/...; by-directory then runs with an include-ext naming such an extension) / " +
 		".git,.svn,.hg,.idea,coca_reporter / empty / nested with files at several depths; directories named coca_reporter, .idea, old_coca_reporter at depth >= 2 with sources; " +
 		"sometimes a language that occurs only inside the top-level .idea / coca_reporter; every fifth case has all six languages (polyglot: > 5 languages in one top-file report); " +
 		"0-3 root-level files; 1-6 of Java, Go, Python, JavaScript, C, Shell; every file has planted code/comment/blank line counts, whole-line comments only) " +
@@ -398,9 +398,26 @@ func drawSpecs(r *run.Rand, t *treegen.Tree, idx int, allLangs bool) []spec {
 	c.Filter, c.FilterForm, c.TopN, c.TopForm, c.FlagsFirst = drawFilter(r, t, r.Chance(2, 3)), r.Intn(4), tops[r.Intn(len(tops))], r.Intn(2), r.Chance(1, 4)
 	d := sp("top", insidePick(r))
 	d.Filter, d.FilterForm, d.TopN, d.TopForm, d.FlagsFirst = drawFilter(r, t, r.Chance(2, 3)), r.Intn(4), tops[r.Intn(len(tops))], r.Intn(2), r.Chance(1, 4)
+	if deep := t.DeepOnly(); len(deep) > 0 {
+		// a sub-directory whose files of some extension all lie >= 2 levels down: make sure by-directory runs with an
+		// include-ext filter that names that extension (outside spelling always, inside spelling half of the time)
+		ext := deep[r.Intn(len(deep))][1]
+		withExt := func(f []string) []string {
+			for _, x := range f {
+				if x == ext {
+					return f
+				}
+			}
+			return append(append([]string{}, f...), ext)
+		}
+		a.Filter = withExt(a.Filter)
+		if r.Bool() {
+			b.Filter = withExt(b.Filter)
+		}
+	}
 	if allLangs {
-		// the polyglot cases: the whole tree, no filter (six languages in one report)
-		a.Filter, c.Filter = nil, nil
+		// the polyglot cases: the whole tree, no filter (six languages in one top-file report)
+		c.Filter = nil
 		if r.Bool() {
 			d.Filter = nil
 		}
@@ -614,6 +631,18 @@ func countObserved(o *run.Outcome, t *treegen.Tree, s spec, ob observation) {
 	if s.Mode == "bydir" {
 		e := oracle.ExpectByDir(t, oracle.ClocFilter(s.Filter))
 		o.Count("bydir_rows_expected", len(e.Rows))
+		if len(s.Filter) > 0 {
+			n := 0
+			for _, de := range t.DeepOnly() {
+				if oracle.ClocFilter(s.Filter).Allows(de[1]) {
+					n++
+				}
+			}
+			if n > 0 {
+				o.Count("bydir_runs_with_include_ext_naming_a_2+_levels_down_only_extension", 1)
+				o.Count("bydir_cells_whose_files_are_all_2+_levels_down_under_include_ext", n)
+			}
+		}
 		if ob.Spec.Cwd == "dotdot" || ob.Spec.Cwd == "sub-dotdot" {
 			o.Count("bydir_rows_expected", 1) // zzcwd
 		}
